@@ -268,6 +268,7 @@ func ruleR02bResolve(c *Ctx, rule string, fn *ssa.Function) {
 		}
 	}
 	c.check(rangeOK, rule, "ResolveResources:involved-accounts-result", fn.Pos(), "result #0 is built by ranging over the involved-accounts map", "the involved-accounts map is not ranged over to build result #0")
+	ruleR02bCompiler(c)
 	c.check(lookupOK, rule, "ResolveResources:involved-sources-result", fn.Pos(), "result #1 is built by looking Program.Sources up in the involved-accounts map", "result #1 (the write-lock set) is not built by looking every Program.Sources entry up in the involved-accounts map")
 }
 
@@ -298,4 +299,145 @@ func clauseLabel(v ssa.Value) string {
 		}
 	}
 	return "value:" + v.Name()
+}
+
+// ruleR02bCompiler (R02b-iv): every account the compiler makes debitable is declared as a source.
+// In VisitSource: every OP_TAKE_ALL emission is followed, on every path to a nil-error return, by the
+// registration of that account in the needed-accounts map; the function then copies the needed accounts
+// into parseVisitor.sources in a block that dominates every nil-error return; CompileFull builds
+// Program.Sources from parseVisitor.sources. OP_TAKE_ALL / OP_TAKE_ALWAYS are emitted nowhere else.
+func ruleR02bCompiler(c *Ctx) {
+	const rule = "R02b"
+	vs := c.MustFn(rule, pkgCompiler, "parseVisitor.VisitSource")
+	srcF := c.MustField(rule, pkgCompiler, "parseVisitor", "sources")
+	progSources := c.MustField(rule, pkgProgram, "Program", "Sources")
+	takeAll, ok1 := opConst(c, "OP_TAKE_ALL")
+	takeAlways, ok2 := opConst(c, "OP_TAKE_ALWAYS")
+	if vs == nil || srcF == nil || progSources == nil || !ok1 || !ok2 {
+		return
+	}
+	// who may emit
+	allowed := map[string]bool{"VisitSource": true, "TakeFromSource": true}
+	for _, e := range opEmissions(c) {
+		if e.isOK && (e.op == takeAll || e.op == takeAlways) {
+			c.check(allowed[origName(e.fn)] && fnPkgPath(e.fn) == pkgCompiler, rule, "compiler:"+fnName(e.fn)+":may-emit-withdrawals", e.ins.Pos(), "withdrawal opcodes are emitted by the source visitor only", "a withdrawal opcode is emitted outside the source visitor: the debited account is not declared in Program.Sources and is not write-locked")
+		}
+	}
+	// the needed-accounts map: the MakeMap whose range feeds p.sources
+	var needed *ssa.MakeMap
+	var rangeBlock *ssa.BasicBlock
+	for _, b := range vs.Blocks {
+		for _, ins := range b.Instrs {
+			mu, ok := ins.(*ssa.MapUpdate)
+			if !ok {
+				continue
+			}
+			if _, isSrc := fieldRead(mu.Map, srcF); !isSrc {
+				continue
+			}
+			if ex, ok := mu.Key.(*ssa.Extract); ok {
+				if nx, ok := ex.Tuple.(*ssa.Next); ok {
+					if rg, ok := nx.Iter.(*ssa.Range); ok {
+						if mm, ok := rg.X.(*ssa.MakeMap); ok {
+							needed = mm
+							rangeBlock = rg.Block()
+						}
+					}
+				}
+			}
+		}
+	}
+	if needed == nil {
+		c.bad(rule, "compiler:VisitSource:sources-declared", vs.Pos(), "VisitSource does not copy its needed accounts into parseVisitor.sources: Program.Sources is empty and no source account is write-locked")
+		return
+	}
+	okDom := true
+	for _, b := range vs.Blocks {
+		if ret, ok := b.Instrs[len(b.Instrs)-1].(*ssa.Return); ok && len(ret.Results) == 4 && isNilConst(ret.Results[3]) {
+			if !rangeBlock.Dominates(b) {
+				okDom = false
+			}
+		}
+	}
+	c.check(okDom, rule, "compiler:VisitSource:sources-declared", vs.Pos(), "the copy of the needed accounts into parseVisitor.sources dominates every successful return", "VisitSource has a successful return that is not preceded by the declaration of its accounts as sources")
+	// every TAKE_ALL emission is followed by needed[*accAddr] = {}
+	okReg := true
+	var trail []string
+	nEm := 0
+	pr := &PathRule{
+		Step: func(pc *PathCtx, s uint64, ins ssa.Instruction) uint64 {
+			for _, e := range opEmissions(c) {
+				if e.ins == ins && e.isOK && e.op == takeAll {
+					nEm++
+					return s | 1
+				}
+			}
+			if mu, ok := ins.(*ssa.MapUpdate); ok && mu.Map == ssa.Value(needed) {
+				// key: *accAddr with accAddr the address result of a VisitExpr call
+				if u, ok := mu.Key.(*ssa.UnOp); ok && u.Op == token.MUL {
+					if ex, ok := u.X.(*ssa.Extract); ok && ex.Index == 1 {
+						return s &^ 1
+					}
+				}
+			}
+			return s
+		},
+		Exit: func(pc *PathCtx, s uint64, ins ssa.Instruction) {
+			if ret, ok := ins.(*ssa.Return); ok && len(ret.Results) == 4 && isNilConst(ret.Results[3]) && s&1 != 0 {
+				okReg = false
+				trail = pc.Trail()
+			}
+		},
+	}
+	c.RunPaths(vs, 0, pr)
+	if okReg && nEm > 0 {
+		c.ok(rule, "compiler:VisitSource:debited-account-registered", vs.Pos(), "every OP_TAKE_ALL emission is followed by the registration of the account on every successful path")
+	} else {
+		c.add(rule, "compiler:VisitSource:debited-account-registered", vs.Pos(), Violated, "an account is drained (OP_TAKE_ALL) on a path that returns successfully without registering it as a needed/source account: it is debited without being write-locked", trail...)
+	}
+	// CompileFull: Program.Sources built from visitor.sources
+	cf := c.MustFn(rule, pkgCompiler, "CompileFull")
+	if cf != nil {
+		okS := false
+		for _, b := range cf.Blocks {
+			for _, ins := range b.Instrs {
+				if v, _, ok := storeToField(ins, progSources); ok {
+					// v: phi/append chain fed by Next over Range(visitor.sources)
+					seen := map[ssa.Value]bool{}
+					var walk func(x ssa.Value, d int)
+					walk = func(x ssa.Value, d int) {
+						if x == nil || seen[x] || d > 12 {
+							return
+						}
+						seen[x] = true
+						switch y := x.(type) {
+						case *ssa.Phi:
+							for _, e := range y.Edges {
+								walk(e, d+1)
+							}
+						case *ssa.ChangeType:
+							walk(y.X, d+1)
+						case *ssa.Call:
+							if bi, ok := y.Call.Value.(*ssa.Builtin); ok && bi.Name() == "append" {
+								walk(y.Call.Args[0], d+1)
+								for _, e := range variadicElems(y.Call.Args[1]) {
+									if ex, ok := e.(*ssa.Extract); ok {
+										if nx, ok := ex.Tuple.(*ssa.Next); ok {
+											if rg, ok := nx.Iter.(*ssa.Range); ok {
+												if f, _ := anyFieldRead(rg.X); sameField(f, srcF) {
+													okS = true
+												}
+											}
+										}
+									}
+								}
+							}
+						}
+					}
+					walk(v, 0)
+				}
+			}
+		}
+		c.check(okS, rule, "compiler:CompileFull:Program.Sources-from-visitor.sources", cf.Pos(), "Program.Sources lists the keys of parseVisitor.sources", "Program.Sources is not built from the accounts the source visitor declared")
+	}
 }
